@@ -271,6 +271,9 @@ def classify_sinks(it, commutative_calls=()):
                 sinks.append((host, "ordered", "str.join of the generator"))
             elif isinstance(cons, ast.BinOp) and isinstance(cons.op, ast.BitOr) or isinstance(cons, ast.AugAssign) and isinstance(cons.op, (ast.BitOr, ast.BitAnd, ast.Sub)):
                 sinks.append((host, "commutative", "set algebra"))
+            elif it.kind == "listcomp" and isinstance(cons, ast.Call) and cons.args and cons.args[0] is host and call_attr(cons) in ("extend",):
+                # X.extend([... for x in S]) is the loop 'for x in S: X.append(...)': name the sink after its receiver, as for the loop
+                sinks.append((host, "ordered", "list consumed by %s" % U(cons.func)))
             elif it.kind == "listcomp":
                 sinks.append((host, "ordered", "list built from the iteration"))
             else:
